@@ -42,7 +42,7 @@ def headers (name : Str) (fid runId : Str) (runState status version : Int) : Lis
 
 /-- `shardFilter(shard, total)`: true = filtered out -/
 def shardOut (shard total : Int) (id : Int) : Bool :=
-  if Gen.G.shardActive total then Gen.G.shardOutExpr id total shard else false
+  if Gen.G.shardActive total then Gen.G.shardOutExpr id (Gen.G.shardTotal total) shard else false
 
 /-- `makeRole(inputs...)`: join with "-", lower-case, spaces to "_" -/
 def makeRole (inputs : List Str) : Str :=
